@@ -275,38 +275,68 @@ Proof. intros Hin Hm. unfold changeset_filter. eapply offered_fold; eassumption.
 End GateThms.
 
 (* ---- G3: un-request issues no remote delete, and leaves an entry that the sync step cannot read as a local deletion *)
-Theorem unrequest_never_deletes_remote w st e st' acts :
-  g_unrequest w st e = (st', acts) ->
+Lemma refresh_keeps w e :
+  g_key (g_refresh_local w e) = g_key e /\ g_path (g_loc (g_refresh_local w e)) = g_path (g_loc e) /\
+  g_rem (g_refresh_local w e) = g_rem e.
+Proof.
+  unfold g_refresh_local. simpl. repeat split.
+  destruct (g_oid (g_loc e)) as [o|]; [destruct (kmem o (w_loids w))|]; reflexivity.
+Qed.
+Lemma with_changed_keeps e :
+  g_key (with_local_changed e) = g_key e /\ g_path (g_loc (with_local_changed e)) = g_path (g_loc e) /\
+  g_rem (with_local_changed e) = g_rem e.
+Proof. repeat split. Qed.
+
+(* [leaf]: the local object of the entry is not a non-empty folder (deleting one raises and nothing is cleared) *)
+Definition local_leaf (w : gworld) (e : gent) : Prop :=
+  forall p, g_path (g_loc e) = Some p -> existsb (strict_prefix p) (w_lpaths w) = false.
+
+Theorem unrequest_never_deletes_remote w bp st e st' acts :
+  g_unrequest w bp st e = (st', acts) ->
   (forall a, In a acts -> a = GPushLocal (g_key e) \/ exists p, a = GDeleteLocal p /\ g_path (g_loc e) = Some p)
-  /\ (kmem (g_key e) (g_req st) = true ->
+  /\ (kmem (g_key e) (g_req st) = true -> local_leaf w e ->
       kmem (g_key e) (g_req st') = false /\ kmem (g_key e) (g_exc st') = true)
-  /\ (kmem (g_key e) (g_req st) = true -> find_ent (g_ents st) (g_key e) = Some e -> g_path (g_loc e) <> None ->
+  /\ (kmem (g_key e) (g_req st) = true -> local_leaf w e ->
+      find_ent (g_ents st) (g_key e) = Some e -> g_path (g_loc e) <> None ->
       exists e', find_ent (g_ents st') (g_key e) = Some e' /\
                  g_oid (g_loc e') = None /\ is_local_deletion e' = false /\
                  g_oid (g_rem e') = g_oid (g_rem e) /\ g_exists (g_rem e') = g_exists (g_rem e) /\
                  g_path (g_rem e') = g_path (g_rem e))
-  /\ (kmem (g_key e) (g_req st) = false -> st' = st).
+  /\ (kmem (g_key e) (g_req st) = false -> g_req st' = g_req st /\ g_exc st' = g_exc st).
 Proof.
-  unfold g_unrequest. intros H.
-  assert (Hpush: forall a, In a (if needs_push w e then [GPushLocal (g_key e)] else []) -> a = GPushLocal (g_key e)).
-  { intros a Ha. destruct (needs_push w e); [|destruct Ha]. destruct Ha as [Ha|[]]. symmetry. exact Ha. }
-  destruct (kmem (g_key e) (g_req st)) eqn:Hr.
-  - destruct (g_path (g_loc e)) as [p|] eqn:Hp; inversion H; subst; clear H.
-    + split; [|split; [|split; [|discriminate]]].
-      * intros a Ha. apply in_app_or in Ha. destruct Ha as [Ha|Ha]; [left; apply Hpush; exact Ha|].
-        destruct (pmem p (w_lpaths w)); [|destruct Ha]. destruct Ha as [Ha|[]].
-        right. exists p. split; [symmetry; exact Ha|reflexivity].
-      * intros _. simpl. rewrite kmem_kdel, N.eqb_refl. simpl. rewrite kmem_kadd, N.eqb_refl. split; reflexivity.
-      * intros _ Hf _. simpl. eexists. split.
-        -- apply (find_put_same (g_ents st) {| g_key := g_key e; g_loc := cleared; g_rem := _; g_dir := g_dir e;
-                                                g_latest := g_latest e; g_discarded := g_discarded e;
-                                                g_conflicted := g_conflicted e |} e). exact Hf.
-        -- simpl. repeat split; try reflexivity. unfold is_local_deletion. simpl. apply andb_false_r.
-    + split; [|split; [|split; [|discriminate]]].
+  unfold g_unrequest.
+  destruct (bp && negb (kmem (g_key e) (g_req st))) eqn:Hbp.
+  { intros H. inversion H; subst; clear H. apply andb_true_iff in Hbp as [_ Hbp]. apply negb_true_iff in Hbp.
+    split; [intros a []|]. split; [congruence|]. split; [congruence|]. intros _. split; reflexivity. }
+  clear Hbp.
+  set (e1 := g_refresh_local w e).
+  set (e2 := if needs_push e1 then with_local_changed e1 else e1).
+  assert (K: g_key e2 = g_key e /\ g_path (g_loc e2) = g_path (g_loc e) /\ g_rem e2 = g_rem e).
+  { destruct (refresh_keeps w e) as [A [B C]]. unfold e2. fold e1 in A, B, C.
+    destruct (needs_push e1); [destruct (with_changed_keeps e1) as [A' [B' C']]|]; repeat split; congruence. }
+  destruct K as [K1 [K2 K3]]. rewrite K1, K2.
+  assert (Hpush: forall a, In a (if needs_push e1 then [GPushLocal (g_key e)] else []) -> a = GPushLocal (g_key e)).
+  { intros a Ha. destruct (needs_push e1); [|destruct Ha]. destruct Ha as [Ha|[]]. symmetry. exact Ha. }
+  intros H. destruct (kmem (g_key e) (g_req st)) eqn:Hr.
+  - destruct (g_path (g_loc e)) as [p|] eqn:Hp.
+    + destruct (pmem p (w_lpaths w) && existsb (strict_prefix p) (w_lpaths w)) eqn:Hkids; inversion H; subst; clear H.
+      * apply andb_true_iff in Hkids as [_ Hkids].
+        split; [intros a Ha; left; apply Hpush; exact Ha|].
+        split; [intros _ Hl; rewrite (Hl p Hp) in Hkids; discriminate|].
+        split; [intros _ Hl; rewrite (Hl p Hp) in Hkids; discriminate|discriminate].
+      * split; [|split; [|split; [|discriminate]]].
+        -- intros a Ha. apply in_app_or in Ha. destruct Ha as [Ha|Ha]; [left; apply Hpush; exact Ha|].
+           destruct (pmem p (w_lpaths w)); [|destruct Ha]. destruct Ha as [Ha|[]].
+           right. exists p. split; [symmetry; exact Ha|reflexivity].
+        -- intros _ _. simpl. rewrite kmem_kdel, N.eqb_refl. simpl. rewrite kmem_kadd, N.eqb_refl. split; reflexivity.
+        -- intros _ _ Hf _. simpl. eexists. split.
+           ++ eapply find_put_key; [|exact Hf]. reflexivity.
+           ++ simpl. rewrite ?K3. repeat split; try reflexivity. unfold is_local_deletion. simpl. apply andb_false_r.
+    + inversion H; subst; clear H. split; [|split; [|split; [|discriminate]]].
       * intros a Ha. left. apply Hpush. exact Ha.
-      * intros _. simpl. rewrite kmem_kdel, N.eqb_refl. simpl. rewrite kmem_kadd, N.eqb_refl. split; reflexivity.
-      * intros _ _ Hn. exfalso. apply Hn. reflexivity.
-  - inversion H; subst; clear H. split; [|split; [discriminate|split; [discriminate|reflexivity]]].
+      * intros _ _. simpl. rewrite kmem_kdel, N.eqb_refl. simpl. rewrite kmem_kadd, N.eqb_refl. split; reflexivity.
+      * intros _ _ _ Hn. exfalso. apply Hn. reflexivity.
+  - inversion H; subst; clear H. split; [|split; [discriminate|split; [discriminate|intros _; split; reflexivity]]].
     intros a Ha. left. apply Hpush. exact Ha.
 Qed.
 
@@ -399,40 +429,47 @@ Qed.
 Theorem request_registers w st e st' plan :
   find_ent (g_ents st) (g_key e) = Some e ->
   g_request w st e = (st', plan) ->
+  (* the request is registered whether or not the call returns *)
   kmem (g_key e) (g_req st') = true /\ kmem (g_key e) (g_exc st') = false /\
-  (exists pre, plan = pre ++ [g_key e]) /\
-  exists e', find_ent (g_ents st') (g_key e) = Some e' /\ g_changed (g_rem e') = true /\ g_latest e' = false /\
-             g_oid (g_rem e') = g_oid (g_rem e) /\
-             (forall p, g_path (g_loc e) = Some p -> pmem p (w_lpaths w) = false ->
-                        g_oid (g_loc e') = None /\ g_sync_hash (g_rem e') = None /\ g_sync_path (g_rem e') = None).
+  (* it raises exactly when the remote path of the entry is unknown; then the remote side is NOT marked changed here *)
+  (plan = None <-> g_path (g_rem e) = None) /\
+  (forall pl, plan = Some pl ->
+     (exists pre, pl = pre ++ [g_key e]) /\
+     exists e', find_ent (g_ents st') (g_key e) = Some e' /\ g_changed (g_rem e') = true /\ g_latest e' = false /\
+                g_oid (g_rem e') = g_oid (g_rem e) /\
+                (forall p, g_path (g_loc e) = Some p -> pmem p (w_lpaths w) = false ->
+                           g_oid (g_loc e') = None /\ g_sync_hash (g_rem e') = None /\ g_sync_path (g_rem e') = None)).
 Proof.
   intros Hf. unfold g_request.
   set (st1 := g_state_request w st e).
   assert (H1: exists e1, find_ent (g_ents st1) (g_key e) = Some e1 /\ g_key e1 = g_key e /\
-                         g_oid (g_rem e1) = g_oid (g_rem e) /\
+                         g_oid (g_rem e1) = g_oid (g_rem e) /\ g_path (g_rem e1) = g_path (g_rem e) /\
                          (forall p, g_path (g_loc e) = Some p -> pmem p (w_lpaths w) = false ->
                                     g_loc e1 = cleared /\ g_sync_hash (g_rem e1) = None /\ g_sync_path (g_rem e1) = None)).
   { unfold st1, g_state_request. cbn [g_ents].
     destruct (g_path (g_loc e)) as [lp|] eqn:Hlp.
     - destruct (pmem lp (w_lpaths w)) eqn:Hm; cbn [negb].
-      + exists e. split; [eapply find_put_same; exact Hf|]. split; [reflexivity|]. split; [reflexivity|].
-        intros p Hp Hn. inversion Hp; subst. congruence.
+      + exists e. split; [eapply find_put_same; exact Hf|]. split; [reflexivity|]. split; [reflexivity|]. split; [reflexivity|].
+        intros p0 Hp Hn. inversion Hp; subst. congruence.
       + eexists. split.
         * apply (find_put_same (g_ents st) {| g_key := g_key e; g_loc := cleared; g_rem := _; g_dir := g_dir e;
-                                                g_latest := false; g_discarded := g_discarded e;
+                                                g_lfresh := true; g_rfresh := false; g_discarded := g_discarded e;
                                                 g_conflicted := g_conflicted e |} e). exact Hf.
         * cbn. repeat split; reflexivity.
-    - exists e. split; [eapply find_put_same; exact Hf|]. split; [reflexivity|]. split; [reflexivity|].
-      intros p Hp. discriminate. }
-  destruct H1 as [e1 [Hf1 [Hk1 [Ho1 Hst]]]]. rewrite Hf1.
-  intros H. inversion H; subst; clear H. cbn [g_req g_exc g_ents].
-  split; [unfold st1, g_state_request; cbn [g_req]; rewrite kmem_kadd, N.eqb_refl; reflexivity|].
-  split; [unfold st1, g_state_request; cbn [g_exc]; rewrite kmem_kdel, N.eqb_refl; reflexivity|].
-  split; [eexists; unfold request_plan; rewrite Hk1; reflexivity|].
-  eexists. split.
-  - eapply find_put_key; [|exact Hf1]. cbn [g_key]. exact Hk1.
-  - cbn. split; [reflexivity|]. split; [reflexivity|]. split; [exact Ho1|].
-    intros p Hp Hn. destruct (Hst p Hp Hn) as [Hc [Hs1 Hs2]]. rewrite Hc. repeat split; assumption.
+    - exists e. split; [eapply find_put_same; exact Hf|]. split; [reflexivity|]. split; [reflexivity|]. split; [reflexivity|].
+      intros p0 Hp. discriminate. }
+  destruct H1 as [e1 [Hf1 [Hk1 [Ho1 [Hp1 Hst]]]]]. rewrite Hf1.
+  assert (HQ: kmem (g_key e) (g_req st1) = true) by (unfold st1, g_state_request; cbn [g_req]; rewrite kmem_kadd, N.eqb_refl; reflexivity).
+  assert (HX: kmem (g_key e) (g_exc st1) = false) by (unfold st1, g_state_request; cbn [g_exc]; rewrite kmem_kdel, N.eqb_refl; reflexivity).
+  destruct (g_path (g_rem e1)) as [rp|] eqn:Hrp; intros H; inversion H; subst; clear H; cbn [g_req g_exc g_ents].
+  - split; [exact HQ|]. split; [exact HX|]. split; [split; [discriminate|congruence]|].
+    intros pl Hpl. inversion Hpl; subst; clear Hpl.
+    split; [eexists; unfold request_plan; rewrite Hk1; reflexivity|].
+    eexists. split.
+    + eapply find_put_key; [|exact Hf1]. cbn [g_key]. exact Hk1.
+    + unfold g_latest. cbn. split; [reflexivity|]. split; [apply andb_false_r|]. split; [exact Ho1|].
+      intros p Hp Hn. destruct (Hst p Hp Hn) as [Hc [Hs1 Hs2]]. rewrite Hc. repeat split; assumption.
+  - split; [exact HQ|]. split; [exact HX|]. split; [split; [congruence|reflexivity]|]. intros pl Hpl. discriminate.
 Qed.
 
 (* ---- G4: the merged listing, one folder *)
